@@ -328,11 +328,29 @@ class Run:
                 raising = case.get('listener') == 'raising'
                 self.listener = RecListener(self, raising=raising)
                 proc.add_process_listener(self.listener)
+                if case.get('listener') == 'twice':
+                    # registering a listener again changes nothing; one that was added twice and removed once is gone
+                    proc.add_process_listener(self.listener)
+                    self.listeners_more = [RecListener(self, 'listener_removed')]
+                    proc.add_process_listener(self.listeners_more[0])
+                    proc.add_process_listener(self.listeners_more[0])
+                    proc.remove_process_listener(self.listeners_more[0])
                 if raising:
                     # two more observers, all of them broken: whatever the iteration order, each must still be told
                     self.listeners_more = [RecListener(self, 'listener%d' % k, True) for k in (2, 3)]
                     for extra in self.listeners_more:
                         proc.add_process_listener(extra)
+            if case.get('oneshot'):
+                # an observer's one-shot state callback ("tell me once when it has terminated" / "... when it first moves"): it takes
+                # itself off the hook from inside the notification (registered last, so that its removal skips nobody else)
+                from plumpy.base.state_machine import StateEventHook
+
+                def once(sm, hook, _state, when=case['oneshot']):
+                    if when == 'first' or sm.state in (plumpy.ProcessState.FINISHED, plumpy.ProcessState.EXCEPTED, plumpy.ProcessState.KILLED):
+                        self.rec.ev('oneshot', sm.state.value)
+                        sm.remove_state_event_callback(hook, once)
+
+                proc.add_state_event_callback(StateEventHook.ENTERED_STATE, once)
             self.sample(0)
             for item in self._slot_plan.pop(0, ()):
                 self.apply(item[1], plan_idx=item[0])
